@@ -325,8 +325,8 @@ func c05Hist(N, K int, sparse bool) {
 
 func H_c05_hist_dense_q()  { c05Hist(2, 2, false) }
 func H_c05_hist_sparse_q() { c05Hist(2, 2, true) }
-func H_c05_hist_dense_t()  { c05Hist(3, 2, false) }
-func H_c05_hist_sparse_t() { c05Hist(3, 2, true) }
+func H_c05_hist_dense_t()  { c05Hist(3, 1, false) }
+func H_c05_hist_sparse_t() { c05Hist(3, 1, true) }
 
 // c05DenseSym: ONE edit from EVERY DenseGraph on n vertices at once: the n(n-1)/2 edge
 // bytes stay symbolic (0/1), the cached degrees and edge count are the matching sums, the
